@@ -30,6 +30,11 @@ func init() {
 		{"C10", "bufviews", props.BufViews},
 		{"C02", "bufviews", props.BufViews},
 		{"C13", "msb", props.C13msb},
+		{"C04", "gatewires", props.C14valid},
+		{"C04", "seencontract", props.C14seenContract},
+		{"C15", "otpairs", props.C06duality},
+		{"C20", "otpairs", props.C06duality},
+		{"C01", "roles", props.C02},
 		{"C12", "width", props.C12width},
 		{"C12", "shiftcount", props.C12shift},
 		{"C16", "descriptor", props.C16descriptor},
